@@ -25,7 +25,9 @@ func (c *Ctx) cancelMethodName() (string, bool) {
 		return ok && c.fieldVal(lk.X, c.R.FHandling)
 	}
 	for name, blk := range c.frameMethodTests() {
-		if reachFromBlock(blk, isCancelLookup, nil) != nil {
+		// (upward search: it ends where the executor takes its next frame, so a switch inlined
+		// into the executor's loop does not let one case "reach" the next frame's handling)
+		if reachFromBlockUp(blk, isCancelLookup, nil) != nil {
 			return name, true
 		}
 	}
